@@ -325,3 +325,147 @@ def rotate_while_true(body):
         for c in ast.iter_child_nodes(n):
             c._parent = n
     return new, count[0]
+
+
+def inline_helpers(P, f, depth=2, only_private=True):
+    """Body of f with calls to simple helper methods/functions of the package inlined, so that "extract method" leaves the
+    shape-sensitive recognisers something to recognise.  A call is inlined when it is the whole right-hand side of an
+    assignment, an expression statement or a return value; the callee is `self.<m>(...)` on f's own class or a module-level
+    function of f's module; it is not a generator, not recursive, takes only positional / keyword arguments matching its
+    parameters, and returns only at its very end (or never).  Returns (new_body, n_inlined); the body is a deep copy with
+    `_parent` links."""
+    body = copy.deepcopy(f.node.body)
+    count = [0]
+    serial = [0]
+
+    def callee_of(call):
+        if not isinstance(call, ast.Call) or any(isinstance(a, ast.Starred) for a in call.args) or any(k.arg is None for k in call.keywords):
+            return None, None
+        g = None
+        recv = None
+        if isinstance(call.func, ast.Attribute) and isinstance(call.func.value, ast.Name):
+            owner = f
+            while owner is not None and owner.cls is None:
+                owner = owner.parent
+            if owner is not None and owner.params and call.func.value.id == owner.params[0]:
+                g = P.method(owner.cls, call.func.attr)
+                recv = call.func.value
+        elif isinstance(call.func, ast.Name):
+            q = "%s.%s" % (f.module.name, call.func.id)
+            g = P.funcs.get(q)
+        if g is None or g is f or g.is_lambda or _is_generator(g.node) or g.vararg or g.kwarg:
+            return None, None
+        if getattr(g, "is_property", False) or g.is_classmethod:
+            return None, None
+        if only_private and not g.name.startswith("_"):
+            return None, None  # public helpers are part of the vocabulary the rules hook (computeRequiredWidth, ...)
+        stmts = [s for s in g.node.body if not (isinstance(s, ast.Expr) and isinstance(s.value, ast.Constant))]
+        rets = [n for n in walk_local(g.node) if isinstance(n, ast.Return)]
+        if len(rets) > 1 or (rets and rets[0] is not stmts[-1]):
+            return None, None
+        # no recursion back into f or itself
+        for n in walk_local(g.node):
+            if isinstance(n, ast.Call) and isinstance(n.func, ast.Attribute) and n.func.attr in (g.name, f.name):
+                return None, None
+            if isinstance(n, (ast.Global, ast.Nonlocal)):
+                return None, None
+        return g, recv
+
+    def expand(call, g, recv, result_target):
+        serial[0] += 1
+        tag = serial[0]
+        params = list(g.params)
+        mapping = {}
+        pre = []
+        if g.cls is not None and params and not g.is_staticmethod:
+            mapping[params[0]] = recv if recv is not None else ast.Name(id="self", ctx=ast.Load())
+            params = params[1:]
+        given = {}
+        for p_, a in zip(params, call.args):
+            given[p_] = a
+        if len(call.args) > len(params):
+            return None
+        for k in call.keywords:
+            if k.arg not in params or k.arg in given:
+                return None
+            given[k.arg] = k.value
+        for p_ in params:
+            if p_ in given:
+                v = given[p_]
+            elif p_ in g.defaults:
+                v = copy.deepcopy(g.defaults[p_])
+            else:
+                return None
+            assigned_in_callee = any(isinstance(n, ast.Name) and n.id == p_ and isinstance(n.ctx, ast.Store) for n in walk_local(g.node))
+            if isinstance(v, ast.Name) and not assigned_in_callee:
+                mapping[p_] = v.id  # a plain name passed for a parameter the helper never rebinds: no copy needed
+                continue
+            new = "_h%d_%s" % (tag, p_)
+            mapping[p_] = new
+            pre.append(ast.Assign(targets=[ast.Name(id=new, ctx=ast.Store())], value=copy.deepcopy(v), lineno=call.lineno, col_offset=0))
+        # a helper that ends in `return <its own local>` assigned to a plain name: the local *is* that name
+        last = [s_ for s_ in g.node.body if not (isinstance(s_, ast.Expr) and isinstance(s_.value, ast.Constant))]
+        last = last[-1] if last else None
+        if isinstance(result_target, ast.Name) and isinstance(last, ast.Return) and isinstance(last.value, ast.Name) and last.value.id not in mapping:
+            mapping[last.value.id] = result_target.id
+        for n in walk_local(g.node):
+            if isinstance(n, ast.Name) and isinstance(n.ctx, ast.Store) and n.id not in mapping:
+                mapping[n.id] = "_h%d_%s" % (tag, n.id)
+        stmts = copy.deepcopy([s for s in g.node.body if not (isinstance(s, ast.Expr) and isinstance(s.value, ast.Constant))])
+        ren = _Rename(mapping)
+        out = list(pre)
+        for s in stmts:
+            s = ren.visit(s)
+            if isinstance(s, ast.Return):
+                if result_target is not None:
+                    val = s.value if s.value is not None else ast.Constant(value=None)
+                    if isinstance(result_target, ast.Name) and isinstance(val, ast.Name) and val.id == result_target.id:
+                        continue  # x = x
+                    out.append(ast.Assign(targets=[result_target], value=val, lineno=call.lineno, col_offset=0))
+                elif s.value is not None:
+                    out.append(ast.Expr(value=s.value, lineno=call.lineno, col_offset=0))
+            else:
+                out.append(s)
+        if not any(isinstance(s, ast.Return) for s in stmts) and result_target is not None:
+            out.append(ast.Assign(targets=[result_target], value=ast.Constant(value=None), lineno=call.lineno, col_offset=0))
+        count[0] += 1
+        return out
+
+    def visit(stmts, level):
+        out = []
+        for s in stmts:
+            for fld in ("body", "orelse", "finalbody"):
+                sub = getattr(s, fld, None)
+                if isinstance(sub, list) and sub and isinstance(sub[0], ast.stmt):
+                    setattr(s, fld, visit(sub, level))
+            rep = None
+            if isinstance(s, ast.Expr):
+                g, recv = callee_of(s.value)
+                if g is not None:
+                    rep = expand(s.value, g, recv, None)
+            elif isinstance(s, ast.Assign) and len(s.targets) == 1:
+                g, recv = callee_of(s.value)
+                if g is not None:
+                    rep = expand(s.value, g, recv, s.targets[0])
+            elif isinstance(s, ast.Return) and s.value is not None:
+                g, recv = callee_of(s.value)
+                if g is not None:
+                    tmp = ast.Name(id="_h_result%d" % (serial[0] + 1), ctx=ast.Store())
+                    rep = expand(s.value, g, recv, tmp)
+                    if rep is not None:
+                        rep.append(ast.Return(value=ast.Name(id=tmp.id, ctx=ast.Load()), lineno=s.lineno, col_offset=0))
+            if rep is not None:
+                if level < depth:
+                    rep = visit(rep, level + 1)
+                out.extend(rep)
+            else:
+                out.append(s)
+        return out
+
+    new = visit(body, 1)
+    mod = ast.Module(body=new, type_ignores=[])
+    ast.fix_missing_locations(mod)
+    for n in ast.walk(mod):
+        for c in ast.iter_child_nodes(n):
+            c._parent = n
+    return new, count[0]
